@@ -39,8 +39,8 @@ CLAIMED = {
          "Trusted: fs.WalkDir SkipDir semantics. Five genuine defects found by these rules were repaired by fix: commits (known_findings.json).",
          "DESIGN.md §3 C13"),
  "C02": ("SSA guard dominance with value identity (same block index i across weak, length and strong comparisons) + who-may-call for checksum definitions + field-store provenance of the seed",
-         "Partial, structural: a block reference is emitted only after weak, length and strong (seeded MD4, sliced by the negotiated length) comparisons for that same block; one shared checksum definition used by both ends with the session seed; the whole-file trailer is always sent; a reallocated read window keeps its contents. Exactness of offsets/windows/arithmetic is NOT decided.",
-         "Trusted: MD4. Not covered: window arithmetic in mapStruct/matched/receiveData.",
+         "Partial, structural: a block reference is emitted only after weak, length and strong (seeded MD4, sliced by the negotiated length) comparisons for that same block; one shared checksum definition used by both ends with the session seed; the whole-file trailer is always sent; a reallocated read window keeps its contents; a read window never extends past the mapped file size (a read past it is reported as a changed file and fails the transfer). Exactness of offsets/windows/arithmetic is NOT decided.",
+         "Trusted: MD4. Not covered: window arithmetic in mapStruct/matched/receiveData beyond the clamp to the file size. One genuine defect repaired by a fix: commit.",
          "DESIGN.md §3 C02"),
  "C06": ("API confinement over the reachable call graph + SSA provenance of the os.OpenRoot argument (phi-edge guards) + interface-implementation enumeration",
          "Decides the capability argument: the sender reads only through FileSource, whose only implementations are an os.Root wrapper and the module's fs.FS; the single os.OpenRoot takes the configured module path (request text only for the implicit \"/\" module); the module handed to the session is an element of the configured table; no process-wide buffer pools or caches are reachable from the sender.",
